@@ -940,6 +940,38 @@ def known_classes():
     return {f["class"]: f for f in common.load_known_findings("C12") if f.get("status") == "known"}
 
 
+CLASS_CODON_EDGE = "codon_start_gene_on_region_edge"      # finding FC12b
+
+
+def witness_codon_start_edge():
+    """ a CDS read with /codon_start=2 (GenBank 201..291, kept by secmet as [201:291]) and a region that starts exactly
+        at 201: the gene is a child of the region but is missing from the region file (to_biopython writes it as
+        [200:291], which the slice of the converted record at 201 leaves out); with the region starting at 200 it is kept """
+    import random
+    import tempfile
+    from Bio.Seq import Seq
+    from Bio.SeqFeature import SeqFeature
+    from antismash.common.secmet import Record
+    from antismash.common.secmet.features import CDSFeature, SubRegion
+    from antismash.common.secmet.locations import FeatureLocation as FL
+    rnd = random.Random(3)
+    kept = []
+    for edge in (0, -1):
+        rec = Record(Seq("".join(rnd.choice("ACGT") for _ in range(1000))))
+        rec.id = rec.name = "X"
+        bio_cds = SeqFeature(FL(200, 291, 1), type="CDS", qualifiers={"locus_tag": ["shifted"], "codon_start": ["2"]})
+        cds = CDSFeature.from_biopython(bio_cds, record=rec)
+        rec.add_cds_feature(cds)
+        rec.add_subregion(SubRegion(FL(int(cds.location.start) + edge, 600), "tool"))
+        rec.create_regions()
+        region = rec.get_regions()[0]
+        with tempfile.TemporaryDirectory() as tmp:
+            region.write_to_genbank(directory=tmp)
+            new = Record.from_genbank(os.path.join(tmp, "X.region001.gbk"))[0]
+        kept.append(([c.get_name() for c in region.cds_children], [c.get_name() for c in new.get_cds_features()]))
+    return kept[0] == (["shifted"], []) and kept[1] == (["shifted"], ["shifted"])
+
+
 # ------------------------------------------------------------------ the run
 
 RULE = ("synthetic stream: bio-level records of 12-300 bases, linear/circular, a region inside / touching the record ends / "
@@ -1180,6 +1212,21 @@ def run(chk):
                            "input": meta[i]["describe"]})
     for kind, what, doc in late:
         chk.violation(kind, what, doc)
+    # finding FC12b (codon_start_gene_on_region_edge): the generators keep regions off the frameshifted start / end of a
+    # gene with codon_start 2 or 3; the recorded witness is replayed on every run
+    chk.evaluations += 1
+    try:
+        reproduced = witness_codon_start_edge()
+    except Exception:  # pylint: disable=broad-except
+        reproduced = False
+    if reproduced:
+        if CLASS_CODON_EDGE in known:
+            chk.known(known[CLASS_CODON_EDGE]["what_fails"])
+        else:
+            chk.violation("counterexample", f"class {CLASS_CODON_EDGE} (not listed as known): "
+                          + " ".join((witness_codon_start_edge.__doc__ or "").split()),
+                          {"theorem_or_correspondence": "Region.write_to_genbank -> Record.from_genbank, witness",
+                           "input": " ".join((witness_codon_start_edge.__doc__ or "").split())})
     chk.crosscheck_vm(cases, model_outs, k=60 if quick else 400)
     return chk.finish(RULE, trusted_extra=[
         "Biopython 1.81 SeqRecord slicing/addition, GenBank writer and parser: transcribed (slicing) or not modelled "
